@@ -9,7 +9,7 @@ git -C /repo worktree remove --force $WT >/dev/null 2>&1
 git -C /repo worktree add -f --detach $WT HEAD -q || exit 2
 git -C $WT apply $HERE/seeded/$ID/patch.diff || { echo "seed=$ID patch does not apply"; git -C /repo worktree remove --force $WT; exit 2; }
 cd $HERE
-SYMX_REPO=$WT ./check $PROP --tier $TIER --no-evidence "$@" > $LOGDIR/seedrun_$ID.$PROP.log 2>&1
+SYMX_REPO=$WT ./check $PROP --tier $TIER --no-evidence --budget 100000 "$@" > $LOGDIR/seedrun_$ID.$PROP.log 2>&1
 RC=$?
 NV=$(grep -c '^VIOLATION' $LOGDIR/seedrun_$ID.$PROP.log)
 echo "seed=$ID check=$PROP tier=$TIER exit=$RC violations=$NV $(grep -o 'wall=[0-9]*s' $LOGDIR/seedrun_$ID.$PROP.log | tail -1)"
